@@ -208,7 +208,7 @@ Proof.
     destruct (t <=? 32) eqn:C1; [|destruct (t <=? 64) eqn:C2; [|destruct (t <=? 128) eqn:C3; [|destruct (t <=? 255) eqn:C4]]].
     all: try match goal with |- context [if ?c then TtlDistance _ _ else _] => destruct c eqn:CD end.
     all: destruct st; cbn [distance_ttl]; try discriminate; unfold high_or, tq_high, tq_low.
-    all: try match goal with |- context [if ?c then 0 else 2] => destruct c eqn:EQ; [|discriminate] end.
+    all: try match goal with |- context [if ?c then _ else _] => destruct c eqn:EQ; try discriminate end.
     all: intros _; unfold conf_ttl, ttl_initial, max_hops; unfold sat_add8 in *; lia.
 Qed.
 
@@ -268,23 +268,32 @@ Proof.
 Qed.
 
 (* ================================================================ (L) live + conforms => distance 0 *)
-Lemma ttl_live_zero st t : ttl_live st = true -> conf_ttl st t = true -> distance_ttl (spec_ittl t) st = Some 0.
+Lemma ttl_live_zero st t : t < 256 -> ttl_live st = true -> conf_ttl st t = true -> distance_ttl (spec_ittl t) st = Some 0.
 Proof.
-  destruct st as [i| | |]; cbn [ttl_live]; try discriminate. unfold initial_ttls. cbn [existsb].
-  intros L C. unfold conf_ttl, ttl_initial, max_hops in C.
-  assert (I : i = 32 \/ i = 64 \/ i = 128 \/ i = 255) by lia.
-  unfold spec_ittl, initial_ttls. replace (t =? 0) with false by lia. cbn [find].
-  destruct I as [-> | [-> | [-> | ->]]].
-  - replace (t <=? 32) with true by lia. replace (32 - t <=? 30) with true by lia.
-    cbn [distance_ttl]. unfold high_or, sat_add8. replace (N.min 255 (t + (32 - t)) =? 32) with true by lia. reflexivity.
-  - replace (t <=? 32) with false by lia. replace (t <=? 64) with true by lia. replace (64 - t <=? 30) with true by lia.
-    cbn [distance_ttl]. unfold high_or, sat_add8. replace (N.min 255 (t + (64 - t)) =? 64) with true by lia. reflexivity.
-  - replace (t <=? 32) with false by lia. replace (t <=? 64) with false by lia. replace (t <=? 128) with true by lia.
-    replace (128 - t <=? 30) with true by lia.
-    cbn [distance_ttl]. unfold high_or, sat_add8. replace (N.min 255 (t + (128 - t)) =? 128) with true by lia. reflexivity.
-  - replace (t <=? 32) with false by lia. replace (t <=? 64) with false by lia. replace (t <=? 128) with false by lia.
-    replace (t <=? 255) with true by lia. replace (255 - t <=? 30) with true by lia.
-    cbn [distance_ttl]. unfold high_or, sat_add8. replace (N.min 255 (t + (255 - t)) =? 255) with true by lia. reflexivity.
+  intros T256. destruct st as [i| | |i]; cbn [ttl_live]; try discriminate.
+  - unfold initial_ttls. cbn [existsb].
+    intros L C. unfold conf_ttl, ttl_initial, max_hops in C.
+    assert (I : i = 32 \/ i = 64 \/ i = 128 \/ i = 255) by lia.
+    unfold spec_ittl, initial_ttls. replace (t =? 0) with false by lia. cbn [find].
+    destruct I as [-> | [-> | [-> | ->]]].
+    + replace (t <=? 32) with true by lia. replace (32 - t <=? 30) with true by lia.
+      cbn [distance_ttl]. unfold high_or, sat_add8. replace (N.min 255 (t + (32 - t)) =? 32) with true by lia. reflexivity.
+    + replace (t <=? 32) with false by lia. replace (t <=? 64) with true by lia. replace (64 - t <=? 30) with true by lia.
+      cbn [distance_ttl]. unfold high_or, sat_add8. replace (N.min 255 (t + (64 - t)) =? 64) with true by lia. reflexivity.
+    + replace (t <=? 32) with false by lia. replace (t <=? 64) with false by lia. replace (t <=? 128) with true by lia.
+      replace (128 - t <=? 30) with true by lia.
+      cbn [distance_ttl]. unfold high_or, sat_add8. replace (N.min 255 (t + (128 - t)) =? 128) with true by lia. reflexivity.
+    + replace (t <=? 32) with false by lia. replace (t <=? 64) with false by lia. replace (t <=? 128) with false by lia.
+      replace (t <=? 255) with true by lia. replace (255 - t <=? 30) with true by lia.
+      cbn [distance_ttl]. unfold high_or, sat_add8. replace (N.min 255 (t + (255 - t)) =? 255) with true by lia. reflexivity.
+  - (* NN- : any TTL from 1 to NN (0 only for `0-`) *)
+    intros _ C. unfold conf_ttl in C. unfold spec_ittl, initial_ttls.
+    destruct (t =? 0) eqn:T0.
+    + cbn [distance_ttl]. unfold high_or. replace (0 =? i) with true by lia. reflexivity.
+    + cbn [find].
+      destruct (t <=? 32) eqn:C1; [|destruct (t <=? 64) eqn:C2; [|destruct (t <=? 128) eqn:C3; [|destruct (t <=? 255) eqn:C4]]].
+      all: try match goal with |- context [if ?c then TtlDistance _ _ else _] => destruct c eqn:CD end.
+      all: cbn [distance_ttl]; replace (t <=? i) with true by lia; reflexivity.
 Qed.
 
 (* an option kind listed in the layout of well-formed options carries its value *)
@@ -414,7 +423,7 @@ Proof.
   { unfold tcp_decisive_mismatch_b. rewrite F1, F7, F8, F9, CV, CL, QE, CP.
     rewrite (eqb_refl_of _ olayout_eqb_eq), (eqb_refl_of _ quirks_eqb_eq). reflexivity. }
   rewrite DM. rewrite F2, F4, F5.
-  rewrite (ttl_live_zero _ _ TL CT). cbn [obind].
+  rewrite (ttl_live_zero _ _ TT TL CT). cbn [obind].
   assert (TSE : has_ts (seg_items g) = layout_ts (t_olayout s)).
   { rewrite <- CL. unfold layout_ts, spec_layout. symmetry. apply has_ts_layout. exact OB. }
   rewrite (window_live_zero s (seg_ver g) (th_win (sg_tcp g)) (spec_mss (seg_items g)) (has_ts (seg_items g)) WL
